@@ -620,6 +620,8 @@ pub enum WideOps {
     BenignInterval,
     /// add/sub/neg and multiplication by small immediates (no ties for derivatives)
     BenignGrad,
+    /// benign arithmetic plus the two-argument call-outs (atan2, mod) so that they happen under full register pressure
+    CallInterval,
 }
 
 pub fn gen_wide(rng: &mut Rng, n_in: usize, w: usize, n_out: usize, ops: WideOps) -> SsaTape {
@@ -635,6 +637,11 @@ pub fn gen_wide(rng: &mut Rng, n_in: usize, w: usize, n_out: usize, ops: WideOps
             ["AddRegImm", "SubRegImm", "SubImmReg", "MulRegImm", "NegReg", "AbsReg", "MinRegImm", "MaxRegImm"].iter().map(|n| by_name(n)).collect(),
             ["AddRegReg", "SubRegReg", "MinRegReg", "MaxRegReg"].iter().map(|n| by_name(n)).collect(),
             ["NegReg", "AbsReg"].iter().map(|n| by_name(n)).collect(),
+        ),
+        WideOps::CallInterval => (
+            ["AddRegImm", "SubRegImm", "SubImmReg", "MulRegImm", "NegReg", "AbsReg"].iter().map(|n| by_name(n)).collect(),
+            ["AddRegReg", "SubRegReg", "AtanRegReg", "ModRegReg", "AtanRegReg", "MinRegReg", "MaxRegReg"].iter().map(|n| by_name(n)).collect(),
+            ["AtanRegImm", "ModRegImm", "AtanImmReg", "NegReg"].iter().map(|n| by_name(n)).collect(),
         ),
         WideOps::BenignGrad => (
             ["AddRegImm", "SubRegImm", "SubImmReg", "MulRegImm", "NegReg"].iter().map(|n| by_name(n)).collect(),
